@@ -18,6 +18,9 @@ type WCNFLayout struct {
 	Wide      bool `json:"wide,omitempty"`
 	CRLF      bool `json:"crlf,omitempty"`
 	NoFinalNL bool `json:"no_final_nl,omitempty"`
+	// OverTop writes every other hard clause with a weight above top (the format and ParseWCNF read
+	// "weight >= top" as hard); ignored for a top so large that the sum could overflow.
+	OverTop bool `json:"over_top,omitempty"`
 }
 
 // WCNF renders a weighted partial MaxSAT instance in the classic format:
@@ -53,6 +56,9 @@ func WCNF(nVars, top int, cls []WClause, l WCNFLayout) string {
 		w := c.Weight
 		if w == 0 {
 			w = top
+			if l.OverTop && top < 1<<40 && i%2 == 0 {
+				w = top + 1 + i%3*top
+			}
 		}
 		fs := []string{fmt.Sprint(w)}
 		for _, x := range c.Lits {
